@@ -85,6 +85,9 @@ func (p *Prog) verifyFunction(fn *ssa.Function, con *Contract) (res *FnResult) {
 				Src: "the `at call " + k + "` directive of the contract matches no call site of the function"})
 		}
 	}
+	if con != nil {
+		res.Obls = append(res.Obls, p.noReadsObligations(fn, con, res.Fn)...)
+	}
 	for n := range e.notes {
 		res.Notes = append(res.Notes, n)
 	}
@@ -272,4 +275,105 @@ func (e *Enc) inputBounds(term string, t types.Type, heap *Heap) {
 			}
 		}
 	}
+}
+
+// noReadsObligations decides `noreads` directives structurally: the function and
+// every repo function reachable from it through static calls, closures and
+// function values it mentions contain no selection of the listed fields.
+// Calls through interfaces and function-typed variables are not followed (the
+// obligation text says so); reflection is outside the model.
+func (p *Prog) noReadsObligations(fn *ssa.Function, con *Contract, disp string) []*Obligation {
+	var out []*Obligation
+	for _, nr := range con.NoReads {
+		props := nr.Props
+		if len(props) == 0 {
+			props = con.Props
+		}
+		for _, fld := range nr.Fields {
+			i := strings.LastIndex(fld, ".")
+			name := disp + "#noreads:" + fld
+			var st *types.Struct
+			if i > 0 {
+				if ty := p.lookupQualifiedType(fld[:i]); ty != nil {
+					st, _ = ty.Underlying().(*types.Struct)
+				}
+			}
+			idx := -1
+			if st != nil {
+				for j := 0; j < st.NumFields(); j++ {
+					if st.Field(j).Name() == fld[i+1:] {
+						idx = j
+					}
+				}
+			}
+			if idx < 0 {
+				out = append(out, &Obligation{Name: name, Kind: "noreads", Fn: disp, Props: props, Solver: "structural", Result: "sat",
+					Src: "noreads: " + fld + " is not a field of a struct type of the program"})
+				continue
+			}
+			seen := map[*ssa.Function]bool{}
+			var hit string
+			var nfn int
+			var visit func(g *ssa.Function)
+			visit = func(g *ssa.Function) {
+				if g == nil || seen[g] || hit != "" {
+					return
+				}
+				seen[g] = true
+				if !p.inRepo(g) || g.Blocks == nil {
+					return
+				}
+				nfn++
+				for _, b := range g.Blocks {
+					for _, ins := range b.Instrs {
+						var xt types.Type
+						fi := -1
+						switch x := ins.(type) {
+						case *ssa.FieldAddr:
+							xt, fi = x.X.Type(), x.Field
+						case *ssa.Field:
+							xt, fi = x.X.Type(), x.Field
+						}
+						if fi >= 0 {
+							if pt, ok := xt.Underlying().(*types.Pointer); ok {
+								xt = pt.Elem()
+							}
+							if s2, ok := xt.Underlying().(*types.Struct); ok && s2 == st && fi == idx {
+								hit = p.fnDisplay(g) + " at " + p.fset.Position(ins.Pos()).String()
+								return
+							}
+						}
+						var ops [16]*ssa.Value
+						for _, op := range ins.Operands(ops[:0]) {
+							if op == nil || *op == nil {
+								continue
+							}
+							switch v := (*op).(type) {
+							case *ssa.Function:
+								visit(v)
+							case *ssa.MakeClosure:
+								if f2, ok := v.Fn.(*ssa.Function); ok {
+									visit(f2)
+								}
+							}
+						}
+					}
+				}
+				for _, an := range g.AnonFuncs {
+					visit(an)
+				}
+			}
+			visit(fn)
+			o := &Obligation{Name: name, Kind: "noreads", Fn: disp, Props: props, Solver: "structural"}
+			if hit != "" {
+				o.Result = "sat"
+				o.Src = "field " + fld + " is selected in " + hit + " (" + nr.Label + ")"
+			} else {
+				o.Result = "unsat"
+				o.Src = fmt.Sprintf("no selection of %s in the function or the %d repo functions it reaches through static calls (%s); calls through interfaces are not followed", fld, nfn-1, nr.Label)
+			}
+			out = append(out, o)
+		}
+	}
+	return out
 }
